@@ -4,7 +4,7 @@
        Choice conflict only between neighbours);
      * a cross-version copy keeps the ElementType of its source although the name resolves to another type in the version
        of the target file (known finding C07-copy-keeps-source-type). *)
-From AV Require Import Base.Bytes Base.Outcome Hash.HashModel Spec.SpecOps Spec.SpecReal Tree.Heap Tree.Ops Tree.Range
+From AV Require Import Base.Bytes Base.Outcome Hash.HashModel Spec.SpecOps Spec.SpecReal Tree.Heap Tree.Ops Tree.Script Tree.Inv Tree.Range
   Tree.SpecWF Tree.SpecWFReal.
 Open Scope list_scope.
 Open Scope N_scope.
@@ -56,3 +56,32 @@ Proof.
   split; [vm_compute; reflexivity|].
   vm_compute. discriminate.
 Qed.
+
+(* ---- "every node of every reachable world is Ordered for its CURRENT min_version" is false ----
+   Ordered is relative to a version (find_sub_element is); min_version of an element changes when a file of another version
+   joins the model.  History: new model; file f0 in the latest version; create FILE-INFO-COMMENT (name 1043, not in 4.0.1) in
+   the root; create a second file f1 in AUTOSAR 4.0.1.  The root now belongs to both files, its version is 4.0.1, and its
+   child does not exist in that version (finding class mixed-version-files).  The per-operation invariants
+   (the C07_order_inv theorems) speak about the version in force when the operation runs. *)
+Definition hist_ops : list op :=
+  [OpNewModel; OpCreateFile 0 [102; 48] REAL_LATEST; OpCreateSub 0 1043; OpCreateFile 0 [102; 49] 1].
+
+Lemma order_history_refuted :
+  forall (tab_el tab_en : nametab) (check_fn : N -> list N -> res bool) (root_attrs : list (N * cdata)),
+  exists (w : world) (h : id) (n : node) (v : N) (items : list (option N)),
+    run_ops RT tab_el tab_en check_fn REAL_LATEST root_attrs hist_ops (mkWorld (fun _ => None) 0 [] []) = Val w /\
+    w_nodes w h = Some n /\ min_version REAL_LATEST h w = Val (OK v, w) /\
+    items_of w (n_content n) = Some items /\ ~ Ordered RT (n_type n) v items.
+Proof.
+  intros tab_el tab_en check_fn root_attrs.
+  eexists. exists 0. eexists. exists 1, [Some 1043].
+  split; [vm_compute; reflexivity|].
+  split; [vm_compute; reflexivity|].
+  split; [vm_compute; reflexivity|].
+  split; [vm_compute; reflexivity|].
+  unfold Ordered. vm_compute. discriminate.
+Qed.
+
+(* the same child list was in order when it was built (version = latest) *)
+Lemma order_history_was_ordered : Ordered RT real_root REAL_LATEST [Some 1043].
+Proof. vm_compute. reflexivity. Qed.
